@@ -17,8 +17,11 @@ Monitors (every one evaluated next to the real code on every generated case):
 Known-finding classifiers (narrow, by mechanism): see K_* below.
 """
 
+import collections
+import collections.abc
 import itertools
 import math
+import types
 
 import falcon
 import falcon.asgi
@@ -46,6 +49,7 @@ K_EMPTY_LIST = 'csv-all-blank-value-empty-list-indexerror'
 K_JSON_DEPTH = 'json-param-recursionerror-not-400'
 K_ASGI_UTF8 = 'asgi-query-string-non-utf8-unicodedecodeerror'
 K_TWIN_EQ = 'cy-twin-keeps-lone-equals-as-empty-name'
+K_JSON_LEN = 'json-param-content-length-counts-characters'
 
 
 # =============================================================== parse monitor
@@ -235,6 +239,49 @@ class ProbeAsync(Probe):
         await ws.close()
 
 
+class LengthHonouringJSONHandler(falcon.media.BaseHandler):
+    """A custom JSON handler (sync interface, as the documentation requires also for ASGI apps) that reads
+    exactly the announced number of bytes."""
+
+    def deserialize(self, stream, content_type, content_length):
+        data = stream.read() if content_length is None else stream.read(content_length)
+        if not data:
+            raise falcon.MediaNotFoundError('JSON')
+        try:
+            return M.tagged_loads(data.decode('utf-8'))
+        except (ValueError, RecursionError) as ex:
+            raise falcon.MediaMalformedError('JSON') from ex
+
+    def serialize(self, media, content_type):
+        import json
+        return json.dumps(media).encode()
+
+
+OLD_MEDIA_JSON = 'application/json; charset=UTF-8'      # the value of falcon.MEDIA_JSON before 3.0
+_STRICT = falcon.media.JSONHandler(loads=M.strict_decimal_loads)
+_HANDLER_SETS = {
+    'stock': {falcon.MEDIA_JSON: falcon.media.JSONHandler()},
+    'exact': {falcon.MEDIA_JSON: _STRICT},
+    'charset_key': {OLD_MEDIA_JSON: _STRICT},           # an equivalent media type string, no exact key
+    'custom_base': {falcon.MEDIA_JSON: LengthHonouringJSONHandler()},
+}
+JCFGS = ('stock', 'exact', 'charset_key', 'custom_base')
+JSON_LOADS = {'stock': None, 'exact': M.strict_decimal_loads, 'charset_key': M.strict_decimal_loads,
+              'custom_base': M.tagged_loads}
+
+
+def configure_json(options, jcfg):
+    """Reconfigure the JSON handler of a live RequestOptions.media_handlers object in place."""
+    mh = options.media_handlers
+    want = _HANDLER_SETS[jcfg]
+    for key in (falcon.MEDIA_JSON, OLD_MEDIA_JSON):
+        if key in mh and key not in want:
+            del mh[key]
+    for key, handler in want.items():
+        if mh.get(key) is not handler:
+            mh[key] = handler
+
+
 class _NoResponse:
     status, body = None, b''
 
@@ -247,11 +294,15 @@ class Harness:
             self.app[f].add_route('/q', self.probe[f])
         # 'ws': the same ASGI app and resource, reached through a WebSocket connection scope
         self.probe['ws'], self.app['ws'] = self.probe['asgi'], self.app['asgi']
+        self.seq = 0
+        self.last_jcfg = {'wsgi': 'stock', 'asgi': 'stock'}
 
-    def run(self, flavor, query, kb, csv, program, has_names, drop_key=False):
+    def run(self, flavor, query, kb, csv, program, has_names, drop_key=False, jcfg='stock'):
         if flavor.startswith('direct_'):
-            return self.run_direct(flavor, query, kb, csv, program, has_names)
+            return self.run_direct(flavor, query, kb, csv, program, has_names, jcfg)
         app, probe = self.app[flavor], self.probe[flavor]
+        configure_json(app.req_options, jcfg)
+        self.last_jcfg[flavor if flavor == 'wsgi' else 'asgi'] = jcfg
         app.req_options.keep_blank_qs_values = kb
         app.req_options.auto_parse_qs_csv = csv
         probe.program, probe.has_names, probe.out = program, has_names, None
@@ -271,9 +322,10 @@ class Harness:
         return res, probe.out, failed
 
 
-    def run_direct(self, flavor, query, kb, csv, program, has_names):
+    def run_direct(self, flavor, query, kb, csv, program, has_names, jcfg='stock'):
         """Request objects built through the public constructors with an explicit RequestOptions."""
         opts = falcon.RequestOptions()
+        configure_json(opts, jcfg)
         opts.keep_blank_qs_values = kb
         opts.auto_parse_qs_csv = csv
         probe = self.probe['wsgi']
@@ -337,9 +389,30 @@ def op_problem(op, acc, obs):
     return 'getter-wrong-value'
 
 
-def check_request(rec, flavor, query, kb, csv, program, extra_has=(), drop_key=False):
-    """query: str (WSGI: environ QUERY_STRING; ASGI: sent as its UTF-8 bytes) or bytes (ASGI only)."""
+def _length_in_characters_explains(vals, obs):
+    """Narrow classifier: the handler was told len(text) (characters) as content_length although the stream holds
+    len(text.encode()) bytes, and a handler reading exactly content_length bytes gives what was observed."""
+    if not vals:
+        return False
+    text = vals[-1]
+    raw = text.encode('utf-8')
+    if len(raw) == len(text):
+        return False
+    try:
+        short = M.tagged_loads(raw[:len(text)].decode('utf-8'))
+    except ValueError:
+        return obs[0] == '400'
+    return obs[0] == 'ret' and M.same(obs[1], short)
+
+
+def check_request(rec, flavor, query, kb, csv, program, extra_has=(), drop_key=False, jcfg=None):
+    """query: str (WSGI: environ QUERY_STRING; ASGI: sent as its UTF-8 bytes) or bytes (ASGI only).
+    jcfg: JSON handler configuration of the request options (None: next one in rotation)."""
     H = harness()
+    if jcfg is None:
+        jcfg = JCFGS[H.seq % len(JCFGS)]
+        H.seq += 1
+    prev_jcfg = H.last_jcfg.get(flavor if flavor == 'wsgi' else 'asgi') if not flavor.startswith('direct_') else None
     if isinstance(query, bytes):
         try:
             qs = query.decode('utf-8')
@@ -349,7 +422,7 @@ def check_request(rec, flavor, query, kb, csv, program, extra_has=(), drop_key=F
         qs = query
     wire = query.encode('utf-8') if (not flavor.endswith('wsgi') and isinstance(query, str)) else query
     wit = {'case': 'request', 'flavor': flavor, 'kb': kb, 'csv': csv, 'program': program,
-           'drop_key': drop_key, 'mode': rec.mode}
+           'drop_key': drop_key, 'mode': rec.mode, 'jcfg': jcfg, 'prev_jcfg': prev_jcfg}
     if isinstance(query, bytes):
         wit['query_hex'] = query.hex()
     else:
@@ -359,8 +432,11 @@ def check_request(rec, flavor, query, kb, csv, program, extra_has=(), drop_key=F
     ref = MU.ref_parse_qs(qs, kb, csv) if qs else {}
     amb = M.all_blank_csv_names(qs, kb, csv) if qs else set()
     has_names = list(dict.fromkeys(list(ref) + [op['name'] for op in program] + list(extra_has) + ['nope', 'A']))
-    res, out, failed = H.run(flavor, wire, kb, csv, program, has_names, drop_key)
+    res, out, failed = H.run(flavor, wire, kb, csv, program, has_names, drop_key, jcfg)
     rec.count('mon.request.' + flavor)
+    rec.count('cls.json_handler_' + jcfg)
+    if prev_jcfg is not None and prev_jcfg != jcfg:
+        rec.count('cls.json_handler_reconfigured')
     if qs is None:
         # bytes that are not UTF-8: the statement only says that parsing never fails
         rec.count('cls.asgi_non_utf8')
@@ -401,7 +477,10 @@ def check_request(rec, flavor, query, kb, csv, program, extra_has=(), drop_key=F
                 rec.violation('program-cut-short', dict(wit, ops_done=len(out['ops'])))
             break
         obs = out['ops'][i]
-        acc = M.ref_getter(ref, amb, op)
+        acc = M.ref_getter(ref, amb, op, JSON_LOADS[jcfg]) if JSON_LOADS[jcfg] else M.ref_getter(ref, amb, op)
+        if op['g'] == 'json' and jcfg != 'stock':
+            for o in acc:
+                rec.count('out.json_%s.%s' % (jcfg, o.tag))
         rec.count('mon.getter.' + op['g'])
         for o in acc:
             rec.count('out.%s.%s' % (op['g'], o.tag))
@@ -413,6 +492,8 @@ def check_request(rec, flavor, query, kb, csv, program, extra_has=(), drop_key=F
             elif obs[0] == 'exc' and obs[1] == 'RecursionError' and op['g'] == 'json' and \
                     any(o.tag == 'too-deep' for o in acc):
                 known = K_JSON_DEPTH
+            elif op['g'] == 'json' and jcfg == 'custom_base' and _length_in_characters_explains(cref.get(op['name']), obs):
+                known = K_JSON_LEN
             rec.violation(prob, dict(wit, op_index=i, op=op, observed=obs[:3], store=obs[-1],
                                      acceptable=[repr(o) for o in acc]), known_key=known)
         if op.get('propagate') and obs[0] == '400':
@@ -464,8 +545,10 @@ OTHER = {   # a valid value of the kind that differs from every pool value (for 
     'str': 'other', 'int': '41', 'float': '41.25', 'bool': 'on', 'uuid': 'be71ecaa-f719-4d42-87fd-32613c2eeb60',
     'datetime': '2001-02-03T04:05:06+0100', 'date': '2001-02-03', 'json': '{"other": [41]}', 'list': 'zz',
 }
-DEFAULTS = {'str': 'dflt', 'int': -7, 'float': -7.5, 'bool': False, 'uuid': 'dflt', 'datetime': 'dflt', 'date': 'dflt',
+DEFAULTS = {'str': 'dflt', 'int': -7, 'float': -7.5, 'bool': True, 'uuid': 'dflt', 'datetime': 'dflt', 'date': 'dflt',
             'json': {'d': 1}, 'list': ['d']}
+# falsy objects are defaults too ("default (any)")
+FALSY_DEFAULTS = {'str': '', 'int': 0, 'float': 0.0, 'bool': False, 'uuid': '', 'datetime': 0, 'date': '', 'json': {}, 'list': []}
 FORMATS = {'datetime': [None, None, '%Y-%m-%dT%H:%M:%SZ', '%Y-%m-%d', '%d/%m/%y %H:%M', '%Y%m%d%H%M%S'],
            'date': [None, None, '%Y/%m/%d', '%d.%m.%Y', '%Y%m%d', '%Y-%m-%dT%H:%M:%S%z']}
 DEEP_JSON = ['[' * 5000, '{"a":' * 5000 + '1' + '}' * 5000]     # far beyond what json.loads nests (about 1500)
@@ -510,13 +593,13 @@ def table_program(kind, text, k):
     prog = []
     base = []
     for required in (False, True):
-        for has_default in (False, True):
+        for dflt in (None, DEFAULTS, FALSY_DEFAULTS):
             for store in (False, True):
                 op = {'g': kind, 'name': 'p', 'store': store}
                 if required:
                     op['required'] = True
-                if has_default:
-                    op['default'] = DEFAULTS[kind]
+                if dflt is not None:
+                    op['default'] = dflt[kind]
                 base.append(op)
     if kind in ('int', 'float'):
         for j, (lo, hi) in enumerate(numeric_bounds(kind, text)):
@@ -545,6 +628,7 @@ def table_program(kind, text, k):
         if g != kind:
             prog.append({'g': g, 'name': 'p', 'store': True})
     prog.append({'g': kind, 'name': 'absent', 'store': True, 'default': DEFAULTS[kind]})
+    prog.append({'g': kind, 'name': 'absent', 'store': True, 'default': FALSY_DEFAULTS[kind]})
     prog.append({'g': kind, 'name': 'absent', 'store': True, 'required': False})
     prog.append({'g': kind, 'name': 'P', 'store': True})
     last = dict(prog[k % len(prog)], propagate=True)
@@ -601,7 +685,8 @@ def run_table(rec):
         for flavor in FLAVORS:
             if flavor == 'wsgi' and any(ord(c) > 255 for c in q):
                 continue
-            check_request(rec, flavor, q, kb, csv, prog)
+            for jcfg in (JCFGS if kind == 'json' else (None,)):
+                check_request(rec, flavor, q, kb, csv, prog, jcfg=jcfg)
             rec.case(('req', flavor, q, kb, csv))
             rec.count('table.' + kind)
         check_parse(rec, q, k)
@@ -610,14 +695,37 @@ def run_table(rec):
 # =============================================================== to_query_str monitor
 
 RT_NAMES = ['a', 'a b', 'é', ',', '%2C', '&=', 'A', 'a+']
-RT_VALUES = ['', 'x', ',', 'a,b', '%2C', '+', ' ', 'é', '\x00', '&', '=', True, False, 0, 1.5, -3,
+RT_VALUES = ['', 'x', ',', 'a,b', '%2C', '+', ' ', 'é', '\x00', '&', '=', True, False, 0, 1, 1.0, 0.0, 1.5, -3, [1, 0], [1.0, 0.0],
              [], [''], ['x'], ['', ''], ['a', 'b'], ['a,b', ''], ['', 'x', ''], [1, 2], ['%2C', ','], ['é', ' ', '+']]
 
 
-def check_roundtrip(rec, d, cdl, prefix):
-    wit = {'case': 'roundtrip', 'd': d, 'cdl': cdl, 'prefix': prefix}
+class PlainMapping(collections.abc.Mapping):
+    """A Mapping that is not a dict (to_query_str is documented for a Mapping[str, Any])."""
+
+    def __init__(self, d):
+        self._d = dict(d)
+
+    def __getitem__(self, k):
+        return self._d[k]
+
+    def __iter__(self):
+        return iter(self._d)
+
+    def __len__(self):
+        return len(self._d)
+
+
+WRAPS = {'dict': dict, 'ordered': collections.OrderedDict, 'proxy': lambda d: types.MappingProxyType(dict(d)),
+         'userdict': collections.UserDict, 'mapping': PlainMapping}
+WRAP_NAMES = tuple(WRAPS)
+
+
+def check_roundtrip(rec, d, cdl, prefix, wrap='dict'):
+    wit = {'case': 'roundtrip', 'd': d, 'cdl': cdl, 'prefix': prefix, 'wrap': wrap}
     try:
-        text = falcon.to_query_str(d, comma_delimited_lists=cdl, prefix=prefix)
+        arg = d if d is None else WRAPS[wrap](d)
+        rec.count('cls.rt_container_' + wrap)
+        text = falcon.to_query_str(arg, comma_delimited_lists=cdl, prefix=prefix)
     except Exception as ex:  # noqa
         rec.violation('to_query_str-raised', dict(wit, exc=repr(ex)))
         return
@@ -669,12 +777,13 @@ def run_roundtrip_table(rec):
         if idx % rec.nshards != rec.shard:
             continue
         for cdl in (True, False):
-            check_roundtrip(rec, d, cdl, bool((idx + cdl) % 2))
+            check_roundtrip(rec, d, cdl, bool((idx + cdl) % 2), WRAP_NAMES[(idx // rec.nshards) % len(WRAP_NAMES)])
         rec.case(('rt', repr(d)))
     if rec.shard == 0:
         for empty in (None, {}):
             for prefix in (True, False):
-                check_roundtrip(rec, empty, prefix, prefix)
+                for wrap in WRAP_NAMES:
+                    check_roundtrip(rec, empty, prefix, prefix, wrap)
 
 
 def random_dict(rng):
@@ -754,7 +863,7 @@ def random_op(rng, kind, name):
     if rng.random() < 0.35:
         op['required'] = True
     if rng.random() < 0.5:
-        op['default'] = DEFAULTS[kind]
+        op['default'] = rng.choice([DEFAULTS, FALSY_DEFAULTS])[kind]
     if kind in ('int', 'float'):
         if rng.random() < 0.6:
             c = rng.choice([-5, -1, 0, 1, 5, 7, 41, 123, 1000])
@@ -959,7 +1068,7 @@ def run(rec):
             rec.count('rand.structured')
         for _ in range(20):
             d = random_dict(rng)
-            check_roundtrip(rec, d, rng.random() < 0.5, rng.random() < 0.5)
+            check_roundtrip(rec, d, rng.random() < 0.5, rng.random() < 0.5, rng.choice(WRAP_NAMES))
             rec.case(('rt', repr(d)))
             rec.count('rand.roundtrip')
         if rng.random() < 0.3:
@@ -1001,6 +1110,13 @@ def run(rec):
         rec.floor('cls.' + c, 10)
     for c in ('error_propagated_wsgi', 'error_propagated_asgi', 'error_propagated_ws', 'rt_list_cdl', 'rt_list_repeat', 'rt_bool', 'rt_empty_list'):
         rec.floor('cls.' + c, 10)
+    for c in WRAP_NAMES:
+        rec.floor('cls.rt_container_' + c, 200)
+    for c in JCFGS:
+        rec.floor('cls.json_handler_' + c, 500)
+    rec.floor('cls.json_handler_reconfigured', 1000)
+    for c in ('exact.ok', 'exact.invalid', 'charset_key.ok', 'charset_key.invalid', 'custom_base.ok', 'custom_base.invalid'):
+        rec.floor('out.json_' + c, 50)
     for c in ('asgi_non_utf8', 'wsgi_no_query_key', 'empty_query', 'deep_json', 'options_toggled', 'csv_all_blank', 'fixed_strings'):
         rec.floor('cls.' + c, 2)
     rec.floor('rand.hostile', 200)
@@ -1019,10 +1135,14 @@ def replay(rec, w):
         rec.case(wit['qs'])
     elif case == 'request':
         query = bytes.fromhex(wit['query_hex']) if 'query_hex' in wit else wit['query']
-        check_request(rec, wit['flavor'], query, wit['kb'], wit['csv'], wit['program'], drop_key=wit.get('drop_key', False))
+        if wit.get('prev_jcfg'):
+            # the same live Handlers object was configured differently for the previous request
+            harness().run(wit['flavor'], '' if wit['flavor'] == 'wsgi' else b'', True, False, [], [], jcfg=wit['prev_jcfg'])
+        check_request(rec, wit['flavor'], query, wit['kb'], wit['csv'], wit['program'], drop_key=wit.get('drop_key', False),
+                      jcfg=wit.get('jcfg', 'stock'))
         rec.case(('req', wit['flavor'], repr(query)))
     elif case == 'roundtrip':
-        check_roundtrip(rec, wit['d'], wit['cdl'], wit['prefix'])
+        check_roundtrip(rec, wit['d'], wit['cdl'], wit['prefix'], wit.get('wrap', 'dict'))
         rec.case(('rt', repr(wit['d'])))
     else:
         print('unknown witness', wit)
